@@ -26,7 +26,8 @@ CONSTANTS Mode,      \* "pm" | "raw1" | "raw2"
           RotAt,     \* 1000
           StartN,    \* value of the nonce counters after the handshake (0 in reality)
           PauseAt,   \* OUTBOUND_BUFFER_LIMIT_READ_PAUSE (12 in reality)
-          MsgSize    \* size of every queued message in the model
+          MsgSize,   \* size of every queued message in the model
+          Classes    \* message classes the raw peer sends (wire message types, see NoDeliver)
 
 VARIABLES
   ob,       \* [1..2 -> Seq(frame)]  pending_outbound_buffer
@@ -58,7 +59,17 @@ PM(s) == ~Raw(s)
 RawSide == IF Mode = "raw1" THEN 1 ELSE IF Mode = "raw2" THEN 2 ELSE 0
 
 Frame(kind, id, size, len, hn, bn, ep) ==
-  [kind |-> kind, id |-> id, size |-> size, len |-> len, hn |-> hn, bn |-> bn, ep |-> ep]
+  [kind |-> kind, cls |-> kind, id |-> id, size |-> size, len |-> len, hn |-> hn, bn |-> bn, ep |-> ep]
+
+\* Message classes.  Every class is a well-formed message of one wire type.  A class outside NoDeliver
+\* is handed, once the peer's Init has been received, to exactly one handler callback (frame kind
+\* "msg": every channel message type, the gossip messages, onion messages, custom messages).  The
+\* classes in NoDeliver have no one-to-one callback (answered, ignored, batched, or a reason to
+\* disconnect; frame kind "typed"); the model sends them only as messages BEFORE Init, where every
+\* class has the same fate: "Peer sent non-Init first message".
+NoDeliver == {"ping", "ping_nopong", "pong", "warning", "error_chan", "error_all", "start_batch",
+              "gossip_timestamp_filter", "unknown_odd", "unknown_even"}
+MsgKinds == {"init", "msg", "typed"}
 ActFrame(kind) == Frame(kind, -1, 0, IF kind = "act3" THEN Act3Len ELSE IF kind = "act1" THEN Act1Len ELSE Act2Len,
                         0, 0, 0)
 
@@ -66,6 +77,8 @@ ActFrame(kind) == Frame(kind, -1, 0, IF kind = "act3" THEN Act3Len ELSE IF kind 
 EncN(n) == IF n >= RotAt THEN 0 ELSE n
 EncE(n, e) == IF n >= RotAt THEN e + 1 ELSE e
 MsgFrame(kind, id, size, n, e) == Frame(kind, id, size, FrameLen(size), EncN(n), EncN(n) + 1, EncE(n, e))
+ClsFrame(c, id, n, e) ==
+  [MsgFrame(IF c \in NoDeliver THEN "typed" ELSE "msg", id, MsgSize, n, e) EXCEPT !.cls = c]
 
 RECURSIVE SumLen(_, _)
 SumLen(fs, k) == IF k = 0 THEN 0 ELSE fs[k].len + SumLen(fs, k - 1)
@@ -80,7 +93,7 @@ LocateFrom(fs, k, start, a) ==
             (IF fr.kind \in {"act1", "act2", "act3", "garbage"}
              THEN [f |-> k, part |-> "act", len |-> fr.len]
              ELSE [f |-> k, part |-> "hdr", len |-> HdrLen])
-       ELSE IF fr.kind \in {"init", "msg"} /\ a = start + HdrLen
+       ELSE IF fr.kind \in MsgKinds /\ a = start + HdrLen
             THEN [f |-> k, part |-> "body", len |-> fr.len - HdrLen]
        ELSE IF a < start + fr.len THEN [f |-> 0, part |-> "none", len |-> 0]
        ELSE LocateFrom(fs, k + 1, start + fr.len, a)
@@ -249,6 +262,7 @@ Complete(s, st) ==
                 (IF st.irx THEN [nx EXCEPT !.err = TRUE]
                  ELSE [nx EXCEPT !.irx = TRUE, !.evs = Append(@, [t |-> "pconn", s |-> s])])
          ELSE (IF ~st.irx THEN [nx EXCEPT !.err = TRUE]       \* "Peer sent non-Init first message"
+               ELSE IF fr.kind = "typed" THEN nx               \* (not reachable: sent before Init only)
                ELSE [nx EXCEPT !.evs = Append(@, [t |-> "deliver", s |-> s, id |-> fr.id, size |-> fr.size])])
 
 RECURSIVE Consume(_, _, _)
@@ -355,11 +369,13 @@ CRawInit ==
   /\ UNCHANGED <<ob, off, awe, budget, pausedrd, rn, rep, rstep, ru, rneed, rhdr, appq, nextid, rawst,
                  rawgot, kerr, misal, plan>>
 
-\* a message, possibly before Init
-CRawMsg ==
-  LET r == RawSide IN
+\* a message of class c, possibly before Init
+CRawMsg(c) ==
+  LET r == RawSide
+      fr == ClsFrame(c, IF c \in NoDeliver THEN -1 ELSE nextid, sn[r], sep[r]) IN
   /\ Idle /\ r # 0 /\ rawst = 2 /\ RawUp
-  /\ RawEmit(MsgFrame("msg", nextid, MsgSize, sn[r], sep[r]), "msg")
+  /\ c \in NoDeliver => ~rawinit
+  /\ RawEmit(fr, fr.kind)
   /\ sn' = [sn EXCEPT ![r] = EncN(@) + 2] /\ sep' = [sep EXCEPT ![r] = EncE(sn[r], @)]
   /\ nextid' = nextid + 1
   /\ UNCHANGED <<ob, off, awe, budget, pausedrd, rn, rep, rstep, ru, rneed, rhdr, appq, rawst, rawgot,
